@@ -21,9 +21,8 @@ theorem mkSegs_fresh (mss : Nat) (st : Bool) : ∀ (c : Nat) (buf : Bytes), ∀ 
     · exact ih _ x hx
 
 theorem send_fresh (k : Kcp) (b : Bytes) (hq : ∀ x ∈ k.snd_queue, Fresh x) : ∀ x ∈ (send k b).k.snd_queue, Fresh x := by
-  have hq1 : ∀ ext, ∀ x ∈ sendQ1 k b ext, Fresh x := by
-    intro ext
-    unfold sendQ1
+  have hq1 : ∀ x ∈ Frame.sendQ1 k b, Fresh x := by
+    unfold Frame.sendQ1
     split
     · split
       · rename_i s hs
@@ -35,16 +34,16 @@ theorem send_fresh (k : Kcp) (b : Bytes) (hq : ∀ x ∈ k.snd_queue, Fresh x) :
           exact hq s (List.mem_of_getLast? hs)
       · exact hq
     · exact hq
-  have hnew : ∀ buf, ∀ x ∈ sendNew k buf, Fresh x := fun buf => mkSegs_fresh _ _ _ _
-  rw [Kcp.send_eq]
+  have hnew : ∀ x ∈ Frame.sendNew k b, Fresh x := mkSegs_fresh _ _ _ _
+  rw [Frame.send_eq]
   repeat' split
   all_goals first
     | exact hq
-    | exact hq1 _
+    | exact hq1
     | (intro x hx
        rcases List.mem_append.mp hx with h | h
-       · exact hq1 _ x h
-       · exact hnew _ x h)
+       · exact hq1 x h
+       · exact hnew x h)
 
 theorem recv_clean (k : Kcp) (n : Nat) (hrb : k.rcv_buf = []) :
     ∃ q pr, (recv k n).k = { k with rcv_queue := q, rcv_buf := [], probe := pr } := by
@@ -186,7 +185,7 @@ theorem clean_tick {p : Par} {s : State} {gab gba : GLink} (h : Clean p s gab gb
 
 theorem clean_send {p : Par} {s : State} {gab gba : GLink} (h : Clean p s gab gba) (b : Bytes) :
     Clean p (step s (.send b)) gab gba := by
-  obtain ⟨q, hq⟩ := Kcp.send_shape s.A b
+  have hq := Frame.send_k s.A b
   obtain ⟨hpan, hK⟩ := Total.send_total h.aK b
   show Clean p { s with A := (s.A.send b).k, panic := s.panic || (s.A.send b).panic } gab gba
   exact { h with
@@ -316,5 +315,82 @@ theorem clean_step {p : Par} {s : State} {gab gba : GLink} (h : Clean p s gab gb
           rw [show cwndOnAck (inFrs true [] { k := s.A }).k s.A.snd_una = s.A from cwndOnAck_self s.A] at hc
           exact ⟨gab, grest, hc⟩
       · exact ⟨gab, _, h⟩
+
+/-! ### runs -/
+
+instance (base : U32) (s : State) : Decidable (NoWrap base s) := by unfold NoWrap; infer_instance
+instance (s : State) : Decidable (RoomOk s) := by unfold RoomOk; infer_instance
+
+/-- the two run hypotheses hold in every state of the run (including the last) -/
+def RunOk (base : U32) : State → List Ev → Prop
+  | s, [] => NoWrap base s ∧ RoomOk s
+  | s, ev :: rest => NoWrap base s ∧ RoomOk s ∧ RunOk base (Sys.step s ev) rest
+
+instance runOkDec (base : U32) : (s : State) → (evs : List Ev) → Decidable (RunOk base s evs)
+  | s, [] => by unfold RunOk; infer_instance
+  | s, ev :: rest => by
+    unfold RunOk
+    have := runOkDec base (Sys.step s ev) rest
+    infer_instance
+
+theorem clean_run {p : Par} (evs : List Ev) : ∀ (s : State) (gab gba : GLink), Clean p s gab gba → RunOk p.base s evs →
+    ∃ gab' gba', Clean p (Sys.run s evs) gab' gba' ∧ NoWrap p.base (Sys.run s evs) := by
+  induction evs with
+  | nil => intro s gab gba h hr; exact ⟨gab, gba, h, hr.1⟩
+  | cons ev rest ih =>
+    intro s gab gba h hr
+    obtain ⟨gab', gba', hc⟩ := clean_step h hr.1 hr.2.1 ev
+    exact ih _ gab' gba' hc hr.2.2
+
+/-- settings before traffic: what the two cores must look like when the run starts -/
+def CleanInit (A B : Kcp) (D : Nat) : Prop :=
+  Total.InvK A ∧ Total.InvK B ∧ A.conv = B.conv ∧
+  A.acklist = [] ∧ A.snd_buf = [] ∧ A.snd_queue = [] ∧
+  B.snd_buf = [] ∧ B.snd_queue = [] ∧ B.rcv_buf = [] ∧ B.acklist = [] ∧ B.rcv_nxt = A.snd_nxt ∧
+  A.rx_minrto.toNat ≤ A.rx_rto.toNat ∧ A.rx_rto.toNat ≤ 60000 ∧
+  2 * D + B.interval.toNat < A.rx_minrto.toNat ∧ B.rcv_wnd.toNat < 2 ^ 31
+
+instance (A B : Kcp) (D : Nat) : Decidable (CleanInit A B D) := by unfold CleanInit; infer_instance
+
+def parOf (A B : Kcp) : Par := ⟨A.snd_nxt, A.conv, A.rx_minrto.toNat, B.interval.toNat, B.rcv_wnd.toNat⟩
+
+theorem clean_init (A B : Kcp) (D t0 : Nat) (ndA ndB : Bool) (h : CleanInit A B D) :
+    Clean (parOf A B) (Sys.init A B D t0 ndA ndB) [] [] := by
+  obtain ⟨h1, h2, h3, h4, h5, h6, h7, h8, h9, h10, h11, h12, h13, h14, h15⟩ := h
+  constructor
+  · rfl
+  · rfl
+  · intro d hd; simp at hd
+  · intro d hd; simp at hd
+  · exact ⟨by show t0 ≤ t0 + B.interval.toNat; omega, Nat.le_refl _⟩
+  · exact h14
+  · rfl
+  · exact h1
+  · rfl
+  · exact h4
+  · rfl
+  · exact ⟨h12, h13⟩
+  · show ∀ x ∈ A.snd_queue, Fresh x
+    rw [h6]; intro x hx; simp at hx
+  · show Sorted _ A.snd_buf
+    rw [h5]; exact List.Pairwise.nil
+  · show ∀ x ∈ A.snd_buf, _
+    rw [h5]; intro x hx; simp at hx
+  · show ∀ x ∈ A.snd_buf, _
+    rw [h5]; intro x hx; simp at hx
+  · exact h2
+  · exact h3.symm
+  · exact h7
+  · exact h8
+  · exact h9
+  · rfl
+  · exact ⟨rfl, h15⟩
+  · show ∀ a ∈ B.acklist, _
+    rw [h10]; intro a ha; simp at ha
+  · intro d hd; simp at hd
+  · intro d hd; simp at hd
+  · show _ ∧ o A.snd_nxt B.rcv_nxt + _ = o A.snd_nxt A.snd_nxt
+    rw [h11]
+    simp [allFrs, pushes]
 
 end KcpVerif.SysC
